@@ -296,12 +296,33 @@ func repeatedDecodingOfOpaqueHost(prop string, v *core.Violation) bool {
 	if dec == host {
 		return false
 	}
+	forbidden := false
 	for _, r := range dec {
 		if refmodel.IsForbiddenHost(r) {
-			return true
+			forbidden = true
 		}
 	}
-	return false
+	if !forbidden {
+		return false
+	}
+	// the second canonicalization must differ from the first in the authority only (or fail):
+	// scheme and everything after the authority are untouched by this finding
+	s2, ok := v.Observed.(string)
+	if !ok {
+		return false
+	}
+	j := strings.Index(s2, "://")
+	if j < 0 {
+		return strings.HasPrefix(s2, "Error") // rejected outright
+	}
+	afterAuthority := func(s string, k int) string {
+		rest := s[k+3:]
+		if m := strings.IndexAny(rest, "/?#"); m >= 0 {
+			return rest[m:]
+		}
+		return ""
+	}
+	return s1[:i] == s2[:j] && afterAuthority(s1, i) == afterAuthority(s2, j)
 }
 
 var _ = fmt.Sprint
